@@ -9,6 +9,8 @@ per-constraint and per-variable element views carry the same weights), every ini
 -/
 import SgVerif.Lmm.Lemmas
 import SgVerif.Lmm.Termination
+import SgVerif.Lmm.FbLemmas
+import SgVerif.Lmm.Eps
 namespace SgVerif.C15
 open SgVerif.Lmm
 
@@ -196,9 +198,249 @@ theorem fb_feasible_counterexample :
     refine ⟨st, rfl, h.1, h.2.1, ?_⟩
     rw [h.2.2]; simp [d2Sys]; norm_num
 
+/-- **`fb_feasible_partial`: FairBottleneck on systems without FATPIPE constraints, exact arithmetic (eps = 0), any
+variable bounds.**  Whenever `FairBottleneck::do_solve` returns, the weighted sum of the rates on every active
+constraint is at most its capacity, and every consumer has a rate in [0, bound].  The excluded case (an active FATPIPE
+constraint) is exactly `fb_feasible_counterexample`.  `WFV`: every enabled element's variable is in `variable_set` and
+the element is also in its variable's `cnsts_`; `variable_set` lists each variable once.
+Invariant (Lmm/FbLemmas.lean, `FbInv`): `0 ≤ remaining_ c ≤ bound c − Σ w·value`; the growing consumers of `c` get
+together at most `nb · usage_ c = remaining_ c` in one pass. -/
+theorem fb_feasible_partial (S : Sys) (hwf : WF S) (hwv : WFV S) (hvo : S.vorder.Nodup)
+    (hsh : ∀ c ∈ S.active, (S.cnst c).fatpipe = false)
+    (val0 : Nat → Rat) (fuel : Nat) (st : FbSt) (h : fbSolve S 0 fuel val0 = some st) :
+    (∀ c ∈ S.active, load S st.value c ≤ (S.cnst c).bound) ∧
+    (∀ c ∈ S.active, ∀ e ∈ (S.cnst c).elems, 0 < e.2 →
+       0 ≤ st.value e.1 ∧ (0 < (S.var e.1).bound → st.value e.1 ≤ (S.var e.1).bound)) :=
+  fb_feasible_shared S hwf hwv hvo hsh val0 fuel st h
+
+/-- non-vacuity: two summing constraints (capacities 10 and 2), three variables, one bounded:
+c0 = {v0 (bound 1), v1 (penalty 2), v2}, c1 = {v2} -/
+def shSys : Sys :=
+  { cnst := fun c => if c = 0 then { bound := 10, fatpipe := false, elems := [(2, 1), (1, 1), (0, 1)] }
+                     else if c = 1 then { bound := 2, fatpipe := false, elems := [(2, 1)] }
+                     else { bound := 0, fatpipe := false, elems := [] },
+    var := fun v => if v = 0 then { penalty := 1, bound := 1, cnsts := [(0, 1)] }
+                    else if v = 1 then { penalty := 2, bound := -1, cnsts := [(0, 1)] }
+                    else if v = 2 then { penalty := 1, bound := -1, cnsts := [(0, 1), (1, 1)] }
+                    else { penalty := 0, bound := -1, cnsts := [] },
+    active := [0, 1], vorder := [2, 1, 0] }
+
+theorem shSys_wf : WF shSys := by
+  constructor
+  · decide
+  · intro c hc; simp [shSys] at hc; rcases hc with rfl | rfl <;> simp [shSys]
+  · intro c hc e he; simp [shSys] at hc
+    rcases hc with rfl | rfl <;> simp [shSys] at he
+    · rcases he with rfl | rfl | rfl <;> simp [shSys]
+    · subst he; simp [shSys]
+  · intro c hc e he; simp [shSys] at hc
+    rcases hc with rfl | rfl <;> simp [shSys] at he
+    · rcases he with rfl | rfl | rfl <;> norm_num
+    · subst he; norm_num
+  · intro v e he
+    by_cases h0 : v = 0
+    · subst h0; simp [shSys] at he; subst he; norm_num
+    · by_cases h1 : v = 1
+      · subst h1; simp [shSys] at he; subst he; norm_num
+      · by_cases h2 : v = 2
+        · subst h2; simp [shSys] at he; rcases he with rfl | rfl <;> norm_num
+        · simp [shSys, h0, h1, h2] at he
+  · intro c hc v hp
+    simp [shSys] at hc
+    by_cases h0 : v = 0
+    · subst h0; rcases hc with rfl | rfl <;> simp [shSys, wOf, sumBy]
+    · by_cases h1 : v = 1
+      · subst h1; rcases hc with rfl | rfl <;> simp [shSys, wOf, sumBy]
+      · by_cases h2 : v = 2
+        · subst h2; rcases hc with rfl | rfl <;> simp [shSys, wOf, sumBy]
+        · simp [shSys, h0, h1, h2] at hp
+
+theorem shSys_wfv : WFV shSys := by
+  constructor
+  · intro c hc e he; simp [shSys] at hc
+    rcases hc with rfl | rfl <;> simp [shSys] at he
+    · rcases he with rfl | rfl | rfl <;> simp [shSys]
+    · subst he; simp [shSys]
+  · intro c hc e he; simp [shSys] at hc
+    rcases hc with rfl | rfl <;> simp [shSys] at he
+    · rcases he with rfl | rfl | rfl <;> simp [shSys]
+    · subst he; simp [shSys]
+
+/-- FairBottleneck returns on `shSys` (which meets every hypothesis of `fb_feasible_partial`): v0 = 1, v1 = 7, v2 = 2,
+loads 10 and 2 -/
+example : (fbSolve shSys 0 4 (fun _ => 0)).map
+    (fun st => (st.value 0, st.value 1, st.value 2, load shSys st.value 0, load shSys st.value 1)) = some (1, 7, 2, 10, 2) := by
+  decide +kernel
+
+example : shSys.vorder.Nodup ∧ ∀ c ∈ shSys.active, (shSys.cnst c).fatpipe = false :=
+  ⟨by decide, by intro c hc; simp [shSys] at hc; rcases hc with rfl | rfl <;> simp [shSys]⟩
+
 /-- on the same system maxmin is feasible (instance of `maxmin_feasible`): 1 and 10 -/
 example : (maxminSolve d2Sys 0 4 (fun _ => 0)).map (fun st => (st.value 0, st.value 1)) = some (1, 10) := by
   decide +kernel
+
+/-! ### eps > 0: the precision tests can drop a constraint that still has consumers -/
+
+/-
+Full-strength statement planned in DESIGN §8 — FALSE on the current code:
+  theorem maxmin_feasible_eps (S) (hwf : WF S) (eps) (h0 : 0 ≤ eps) (val0 fuel st)
+      (h : maxminSolve S eps fuel val0 = some st) :
+      ∀ c ∈ S.active, (S.cnst c).fatpipe = false → load S st.value c ≤ (S.cnst c).bound + eps * initUsage S c
+(DESIGN argued "`double_update` only clamps down, so it never hurts".)  It does hurt: when `double_update` clamps
+`usage_` (below `eps`) or `remaining_` (below `bound·eps`) to 0 the constraint is taken out of `cnst_light_tab` although
+some of its consumers are not fixed yet; these consumers are then only limited by their *other* constraints, and the
+load of the dropped constraint is bounded by no function of `eps` and its own data.  `maxmin_feasible_eps_counterexample`
+below; replayed on the real library (corpus case `epsA`, finding `maxmin-precision-drops-constraint`).
+What does hold for every `0 ≤ eps < 1` is `maxmin_var_bounds_eps_partial` below (rates in [0, bound]); at `eps = 0`,
+`maxmin_feasible`.
+-/
+
+/-- c0: SHARED capacity 1, consumers v0 (w 1) and v1 (w 2⁻¹⁸ < eps); c1: capacity 1/2, consumer v0; c2: capacity 2³⁰,
+consumer v1 (w 1).  Penalties 1, no variable bound.  (`enabled_element_set_` orders as dumped by the harness.) -/
+def epsSys : Sys :=
+  { cnst := fun c => if c = 0 then { bound := 1, fatpipe := false, elems := [(1, 1/262144), (0, 1)] }
+                     else if c = 1 then { bound := 1/2, fatpipe := false, elems := [(0, 1)] }
+                     else if c = 2 then { bound := 1073741824, fatpipe := false, elems := [(1, 1)] }
+                     else { bound := 0, fatpipe := false, elems := [] },
+    var := fun v => if v = 0 then { penalty := 1, bound := -1, cnsts := [(0, 1), (1, 1)] }
+                    else if v = 1 then { penalty := 1, bound := -1, cnsts := [(0, 1/262144), (2, 1)] }
+                    else { penalty := 0, bound := -1, cnsts := [] },
+    active := [0, 1, 2], vorder := [1, 0] }
+
+theorem epsSys_wf : WF epsSys := by
+  constructor
+  · decide
+  · intro c hc; simp [epsSys] at hc; rcases hc with rfl | rfl | rfl <;> simp [epsSys]
+  · intro c hc e he; simp [epsSys] at hc
+    rcases hc with rfl | rfl | rfl <;> simp [epsSys] at he
+    · rcases he with rfl | rfl <;> simp [epsSys]
+    · subst he; simp [epsSys]
+    · subst he; simp [epsSys]
+  · intro c hc e he; simp [epsSys] at hc
+    rcases hc with rfl | rfl | rfl <;> simp [epsSys] at he
+    · rcases he with rfl | rfl <;> norm_num
+    · subst he; norm_num
+    · subst he; norm_num
+  · intro v e he
+    by_cases h0 : v = 0
+    · subst h0; simp [epsSys] at he; rcases he with rfl | rfl <;> norm_num
+    · by_cases h1 : v = 1
+      · subst h1; simp [epsSys] at he; rcases he with rfl | rfl <;> norm_num
+      · simp [epsSys, h0, h1] at he
+  · intro c hc v hp
+    simp [epsSys] at hc
+    by_cases h0 : v = 0
+    · subst h0; rcases hc with rfl | rfl | rfl <;> simp [epsSys, wOf, sumBy]
+    · by_cases h1 : v = 1
+      · subst h1; rcases hc with rfl | rfl | rfl <;> simp [epsSys, wOf, sumBy]
+      · simp [epsSys, h0, h1] at hp
+
+/-- **counterexample to feasibility "up to the configured precision"** (kernel evaluation of the model at the default
+`precision/work-amount` 10⁻⁵ on a well-formed system): c1 fixes v0 = 1/2; `double_update` then clamps `usage_` of c0
+(2⁻¹⁸ < 10⁻⁵) to 0 and c0 leaves the light table with v1 unfixed; v1 gets 2³⁰ from c2: the load of c0 is 4096.5 for a
+capacity of 1.  At `eps = 0` the same system gets v1 = 2¹⁷ and load exactly 1 (`maxmin_feasible`). -/
+theorem maxmin_feasible_eps_counterexample :
+    ∃ st, maxminSolve epsSys (1 / 100000) 5 (fun _ => 0) = some st ∧ st.value 0 = 1 / 2 ∧ st.value 1 = 1073741824 ∧
+      4096 * (epsSys.cnst 0).bound < load epsSys st.value 0 := by
+  have h : (maxminSolve epsSys (1 / 100000) 5 (fun _ => 0)).map
+      (fun st => (st.value 0, st.value 1, load epsSys st.value 0)) = some (1 / 2, 1073741824, 8193 / 2) := by
+    decide +kernel
+  cases hs : maxminSolve epsSys (1 / 100000) 5 (fun _ => 0) with
+  | none => rw [hs] at h; simp at h
+  | some st =>
+    rw [hs] at h; simp at h
+    refine ⟨st, rfl, by rw [h.1]; norm_num, h.2.1, ?_⟩
+    rw [h.2.2]; simp [epsSys]; norm_num
+
+/-- the same system in exact arithmetic: v1 = 2¹⁷, load of c0 = 1 -/
+example : (maxminSolve epsSys 0 5 (fun _ => 0)).map
+    (fun st => (st.value 0, st.value 1, load epsSys st.value 0)) = some (1 / 2, 131072, 1) := by
+  decide +kernel
+
+/-- c0: SHARED capacity 1, consumers v0 (penalty 2⁻²⁰, bound 1/4) and v1 (penalty 2⁻²⁰, **no bound**: `bound_ = -1`) -/
+def negSys : Sys :=
+  { cnst := fun c => if c = 0 then { bound := 1, fatpipe := false, elems := [(1, 1), (0, 1)] }
+                     else { bound := 0, fatpipe := false, elems := [] },
+    var := fun v => if v = 0 then { penalty := 1/1048576, bound := 1/4, cnsts := [(0, 1)] }
+                    else if v = 1 then { penalty := 1/1048576, bound := -1, cnsts := [(0, 1)] }
+                    else { penalty := 0, bound := -1, cnsts := [] },
+    active := [0], vorder := [1, 0] }
+
+theorem negSys_wf : WF negSys := by
+  constructor
+  · decide
+  · intro c hc; simp [negSys] at hc; subst hc; simp [negSys]
+  · intro c hc e he; simp [negSys] at hc; subst hc; simp [negSys] at he
+    rcases he with rfl | rfl <;> simp [negSys]
+  · intro c hc e he; simp [negSys] at hc; subst hc; simp [negSys] at he; rcases he with rfl | rfl <;> norm_num
+  · intro v e he
+    by_cases h0 : v = 0
+    · subst h0; simp [negSys] at he; subst he; norm_num
+    · by_cases h1 : v = 1
+      · subst h1; simp [negSys] at he; subst he; norm_num
+      · simp [negSys, h0, h1] at he
+  · intro c hc v hp
+    simp [negSys] at hc; subst hc
+    by_cases h0 : v = 0
+    · subst h0; simp [negSys, wOf, sumBy]
+    · by_cases h1 : v = 1
+      · subst h1; simp [negSys, wOf, sumBy]
+      · simp [negSys, h0, h1] at hp
+
+/-
+Full-strength statement — FALSE on the current code for eps > 0:
+  theorem maxmin_var_bounds_eps (S) (hwf : WF S) (eps) (h0 : 0 ≤ eps) (val0 fuel st)
+      (h : maxminSolve S eps fuel val0 = some st) :
+      ∀ c ∈ S.active, ∀ e ∈ (S.cnst c).elems, 0 < e.2 → 0 ≤ st.value e.1
+The test `double_equals(min_bound, var.bound_ * var.sharing_penalty_, precision)` of the `while` loop is also evaluated
+for variables WITHOUT a bound (`bound_ = -1`): when `min_bound + penalty < precision` it holds and the variable gets
+`value_ = bound_ = -1`.  Fix proposed in props/C15/proposed_fix.diff (`var.bound_ > 0 &&`); with it (model:
+`fixLoop`, add `0 < V.bound ∧` to the `dblEq` test) no variable can get a negative rate.
+-/
+
+/-- **counterexample to "every rate is ≥ 0" at the default precision 10⁻⁵** (kernel evaluation; replayed on the real
+library: corpus case `epsN`, finding `maxmin-precision-bound-test-unbounded-variable`): the unbounded variable v1 is
+"fixed at its bound" −1.  In exact arithmetic it gets 3/4. -/
+theorem maxmin_var_bounds_eps_counterexample :
+    ∃ st, maxminSolve negSys (1 / 100000) 4 (fun _ => 0) = some st ∧ st.value 1 = -1 := by
+  have h : (maxminSolve negSys (1 / 100000) 4 (fun _ => 0)).map (fun st => (st.value 0, st.value 1)) = some (1 / 4, -1) := by
+    decide +kernel
+  cases hs : maxminSolve negSys (1 / 100000) 4 (fun _ => 0) with
+  | none => rw [hs] at h; simp at h
+  | some st =>
+    rw [hs] at h; simp at h
+    exact ⟨st, rfl, h.2⟩
+
+example : (maxminSolve negSys 0 4 (fun _ => 0)).map (fun st => (st.value 0, st.value 1)) = some (1 / 4, 3 / 4) := by
+  decide +kernel
+
+/-- **`maxmin_var_bounds_eps_partial`: what survives at a positive precision.**  For every precision `0 ≤ eps < 1` and
+every well-formed system (SHARED, FATPIPE, variable bounds) in which no variable *without* bound can pass the
+`double_equals` test of the bound round — `hnb`: `eps ≤ -(bound_·penalty)` for the variables with `bound_ ≤ 0`, i.e.
+`eps ≤ penalty` for the API's `bound_ = -1`; exactly the case excluded by `maxmin_var_bounds_eps_counterexample`, and no
+longer needed once props/C15/proposed_fix.diff is applied — every rate `maxmin_solve` returns is in [0, bound].
+(Invariant `PInv`, Lmm/Eps.lean: the light table only holds active constraints with remaining_ > 0 and usage_ > 0, so
+min_usage > 0.)  The capacity clause has no such version: `maxmin_feasible_eps_counterexample`. -/
+theorem maxmin_var_bounds_eps_partial (S : Sys) (hwf : WF S) (eps : Rat) (h0 : 0 ≤ eps) (h1 : eps < 1)
+    (hnb : ∀ v, 0 < (S.var v).penalty → (S.var v).bound ≤ 0 → eps ≤ -((S.var v).bound * (S.var v).penalty))
+    (val0 : Nat → Rat) (fuel : Nat) (st : St) (h : maxminSolve S eps fuel val0 = some st) :
+    ∀ c ∈ S.active, ∀ e ∈ (S.cnst c).elems,
+      0 ≤ st.value e.1 ∧ (0 < (S.var e.1).bound → st.value e.1 ≤ (S.var e.1).bound) :=
+  maxmin_var_bounds_eps_wf S hwf eps h0 h1 hnb val0 fuel st h
+
+/-- non-vacuity at the default precision: `exSys` (penalties 1, 1, 2) meets `hnb`, and the solver returns -/
+example : (∀ v, 0 < (exSys.var v).penalty → (exSys.var v).bound ≤ 0 →
+      (1 / 100000 : Rat) ≤ -((exSys.var v).bound * (exSys.var v).penalty)) ∧
+    (maxminSolve exSys (1 / 100000) 4 (fun _ => 0)).isSome = true := by
+  refine ⟨?_, by decide +kernel⟩
+  intro v hp hb
+  by_cases h0 : v = 0
+  · subst h0; simp [exSys] at hb; norm_num at hb
+  · by_cases h1 : v = 1
+    · subst h1; simp [exSys]; norm_num
+    · by_cases h2 : v = 2
+      · subst h2; simp [exSys]; norm_num
+      · simp [exSys, h0, h1, h2] at hp
 
 /-! ### BMF: the acceptance predicate implies the property (Eigen's fixed point is not modelled) -/
 
@@ -240,35 +482,58 @@ theorem bmfAccept_sound (S : Sys) (tol : Rat) (val : Nat → Rat) (h : bmfAccept
 
 /-! ### termination (fuel bound) -/
 
-/-
-Full-strength statement (DESIGN §8 `maxmin_terminates`): for every well-formed system, fuel = #variables + 1
-(≤ #variables + #constraints) suffices.  Proved below for systems whose active constraints are all summing (SHARED);
-missing for FATPIPE: "a positive usage_ of a light FATPIPE constraint is attained by an unfixed element" (the invariant
-only has `usage_ ≥ w/penalty` for the unfixed consumers), needed to show that a saturated FATPIPE constraint always
-contributes a variable to fix.
--/
-
-/-- **`maxmin_terminates`, summing constraints, any variable bounds.**  `nv` bounds the variable indices; measure: number
-of unfixed variables among 0…nv-1, which strictly decreases at each pass of the do-while that starts with a non-empty
-light table (`round_progress`); so the model never runs out of fuel when `fuel ≥ nv + 1`. -/
-theorem maxmin_terminates_partial (S : Sys) (hwf : WF S) (hsh : ∀ c ∈ S.active, (S.cnst c).fatpipe = false) (nv : Nat)
+/-- **`maxmin_terminates` (DESIGN §8), full strength: every well-formed system — SHARED and FATPIPE constraints, any
+variable bounds.**  `nv` bounds the variable indices; measure: number of unfixed variables among 0…nv-1, which strictly
+decreases at each pass of the do-while that starts with a non-empty light table (`round_progress`; for a saturated
+FATPIPE constraint the variable to fix is given by `InvA`: its usage_ is attained by an unfixed consumer); so the model
+never runs out of fuel when `fuel ≥ nv + 1`. -/
+theorem maxmin_terminates (S : Sys) (hwf : WF S) (nv : Nat)
     (hnv : ∀ c ∈ S.active, ∀ e ∈ (S.cnst c).elems, e.1 < nv) (val0 : Nat → Rat) (fuel : Nat) (hfuel : nv + 1 ≤ fuel) :
     (maxminSolve S 0 fuel val0).isSome = true :=
-  maxmin_terminates_shared S hwf hsh nv hnv val0 fuel hfuel
+  maxmin_terminates_wf S hwf nv hnv val0 fuel hfuel
 
 /-- with `nc` constraints: `#variables + #constraints + 1` is enough a fortiori -/
-theorem maxmin_terminates_partial_nc (S : Sys) (hwf : WF S) (hsh : ∀ c ∈ S.active, (S.cnst c).fatpipe = false) (nv nc : Nat)
+theorem maxmin_terminates_nc (S : Sys) (hwf : WF S) (nv nc : Nat)
     (hnv : ∀ c ∈ S.active, ∀ e ∈ (S.cnst c).elems, e.1 < nv) (val0 : Nat → Rat) :
     (maxminSolve S 0 (nv + nc + 1) val0).isSome = true :=
-  maxmin_terminates_shared S hwf hsh nv hnv val0 _ (by omega)
+  maxmin_terminates_wf S hwf nv hnv val0 _ (by omega)
 
-/-- together with `maxmin_feasible`: on SHARED-only systems the solver returns a feasible allocation -/
-theorem maxmin_total_feasible_partial (S : Sys) (hwf : WF S) (hsh : ∀ c ∈ S.active, (S.cnst c).fatpipe = false) (nv : Nat)
+/-- **total correctness of `maxmin_solve` for C15**: on every well-formed system the solver returns, and what it
+returns is feasible (all three clauses of `maxmin_feasible`) -/
+theorem maxmin_total_feasible (S : Sys) (hwf : WF S) (nv : Nat)
     (hnv : ∀ c ∈ S.active, ∀ e ∈ (S.cnst c).elems, e.1 < nv) (val0 : Nat → Rat) :
-    ∃ st, maxminSolve S 0 (nv + 1) val0 = some st ∧ ∀ c ∈ S.active, load S st.value c ≤ (S.cnst c).bound := by
-  have h := maxmin_terminates_shared S hwf hsh nv hnv val0 (nv + 1) (le_refl _)
+    ∃ st, maxminSolve S 0 (nv + 1) val0 = some st ∧
+      (∀ c ∈ S.active, load S st.value c ≤ (S.cnst c).bound) ∧
+      (∀ c ∈ S.active, ∀ e ∈ (S.cnst c).elems,
+        0 ≤ st.value e.1 ∧ (0 < (S.var e.1).bound → st.value e.1 ≤ (S.var e.1).bound)) ∧
+      (∀ v, (∀ c ∈ S.active, ∀ e ∈ (S.cnst c).elems, e.1 ≠ v) → st.value v = val0 v) := by
+  have h := maxmin_terminates_wf S hwf nv hnv val0 (nv + 1) (le_refl _)
   cases hs : maxminSolve S 0 (nv + 1) val0 with
   | none => rw [hs] at h; simp at h
-  | some st => exact ⟨st, rfl, (maxmin_feasible S hwf val0 (nv + 1) st hs).1⟩
+  | some st => exact ⟨st, rfl, maxmin_feasible S hwf val0 (nv + 1) st hs⟩
+
+/-- non-vacuity: `exSys` (SHARED + FATPIPE constraint, a bounded variable) meets the hypotheses with `nv = 3` -/
+example : (maxminSolve exSys 0 4 (fun _ => 0)).isSome = true :=
+  maxmin_terminates exSys exSys_wf 3
+    (by intro c hc e he; simp [exSys] at hc
+        rcases hc with rfl | rfl <;> simp [exSys] at he <;> rcases he with rfl | rfl | rfl <;> simp)
+    _ 4 (by omega)
+
+/-- the first-pass statements (summing constraints only) are corollaries -/
+theorem maxmin_terminates_partial (S : Sys) (hwf : WF S) (_hsh : ∀ c ∈ S.active, (S.cnst c).fatpipe = false) (nv : Nat)
+    (hnv : ∀ c ∈ S.active, ∀ e ∈ (S.cnst c).elems, e.1 < nv) (val0 : Nat → Rat) (fuel : Nat) (hfuel : nv + 1 ≤ fuel) :
+    (maxminSolve S 0 fuel val0).isSome = true :=
+  maxmin_terminates S hwf nv hnv val0 fuel hfuel
+
+theorem maxmin_terminates_partial_nc (S : Sys) (hwf : WF S) (_hsh : ∀ c ∈ S.active, (S.cnst c).fatpipe = false) (nv nc : Nat)
+    (hnv : ∀ c ∈ S.active, ∀ e ∈ (S.cnst c).elems, e.1 < nv) (val0 : Nat → Rat) :
+    (maxminSolve S 0 (nv + nc + 1) val0).isSome = true :=
+  maxmin_terminates_nc S hwf nv nc hnv val0
+
+theorem maxmin_total_feasible_partial (S : Sys) (hwf : WF S) (_hsh : ∀ c ∈ S.active, (S.cnst c).fatpipe = false) (nv : Nat)
+    (hnv : ∀ c ∈ S.active, ∀ e ∈ (S.cnst c).elems, e.1 < nv) (val0 : Nat → Rat) :
+    ∃ st, maxminSolve S 0 (nv + 1) val0 = some st ∧ ∀ c ∈ S.active, load S st.value c ≤ (S.cnst c).bound := by
+  obtain ⟨st, h1, h2, _⟩ := maxmin_total_feasible S hwf nv hnv val0
+  exact ⟨st, h1, h2⟩
 
 end SgVerif.C15
